@@ -5,7 +5,7 @@
 Require Extraction.
 Require Import ExtrOcamlBasic.
 From Coq Require Import ZArith.
-From BE Require Model.Timer Model.Regs Model.Decode Model.Lcd Model.Kbd Model.Sched Model.MemBus.
+From BE Require Model.Timer Model.Regs Model.Decode Model.Lcd Model.Kbd Model.Sched Model.MemBus Model.IL Model.Lift Model.Emu.
 Extraction Language OCaml.
 
 Definition timer_py_run := Timer.py_run.
@@ -35,6 +35,17 @@ Definition mem_py_run (cfg : MemBus.config) := MemBus.py_run cfg nil.
 Definition mem_rs_run (cfg : MemBus.config) := MemBus.rs_run cfg nil.
 Definition mem_card_slot := MemBus.card_slot.
 
+Definition il_lift := Lift.lift_instr.
+Definition il_mk_state := Emu.mk_state.
+Definition il_exec_at := Emu.exec_at.
+Definition il_steps := Emu.steps.
+Definition il_obs_regs := Emu.obs_regs.
+Definition il_obs_writes := Emu.obs_writes.
+Definition il_rlog (s : IL.mstate) := List.rev (IL.rlog s).
+Definition il_wlog (s : IL.mstate) := List.rev (IL.wlog s).
+Definition il_halted := IL.halted.
+Definition il_temps (s : IL.mstate) := Regs.y_t (IL.rg s).
+
 Extraction "Extract/model.ml"
   BinInt.Z.add timer_py_run timer_rs_run timer_py_init timer_rs_init
   regs_py_run regs_rs_run
@@ -42,4 +53,5 @@ Extraction "Extract/model.ml"
   lcd_py_run lcd_rs_run
   kbd_py_run kbd_rs_run
   sched_spawn_all sched_drive
-  mem_py_run mem_rs_run mem_card_slot.
+  mem_py_run mem_rs_run mem_card_slot
+  il_lift il_mk_state il_exec_at il_steps il_obs_regs il_obs_writes il_rlog il_wlog il_halted il_temps.
